@@ -34,7 +34,7 @@ MANIFEST = dict(
          "asserting 'lowest' there would be noise - those cases are only counted. Only failed property predicates "
          "(evaluated by TLC on the final event of each observed run) are violations; a log that is not a behaviour of "
          "the skeleton (other restart/update sizes, iteration structure) is SPEC-DRIFT (warning, exit 0) - DESIGN 12.2. "
-         "Known findings: flat-diagonal dominant matrices (no success in 50 iterations, missed root). Not covered: "
+         "Known findings: flat-diagonal dominant matrices (no success in 50 iterations, missed root); sparse dominant matrices whose lowest states share their only partners (linearly dependent corrections: exception). Not covered: "
          "matrices > 400, complex/non-BSE non-symmetric input, size_initial_guess < size_update (undefined in the code), "
          "histories of more than 3 solves on one object, multi-threaded products. History layer (DavidsonObject.tla): 2-3 "
          "solves on ONE solver object with setters in between must satisfy the same predicates and info()/num_iterations()/"
